@@ -4,12 +4,16 @@ import (
 	"bytes"
 	"fmt"
 	"strings"
+	"sync/atomic"
 
 	"google.golang.org/protobuf/proto"
 
 	"verif/harness/gen"
 	"verif/harness/ir"
 )
+
+// c11LateBudget bounds the number of multi-megabyte bodies per run (set by C11).
+var c11LateBudget atomic.Int64
 
 // c11Body is one request body with the name of the way it was made.
 type c11Body struct {
@@ -185,7 +189,20 @@ func jsonMutants(r *gen.R, sh *c11Shape, in *ir.Message, valid *jn, n int) []c11
 		case 9: // top level of another kind
 			emit("top_level", []byte(gen.Pick(r, []string{"null", "[]", "[1]", "5", `"x"`, "true", "{}", "[{}]", "1e400", "-", `{"a"}`, "[null]"})))
 		case 10: // garbage around
-			switch r.Intn(5) {
+			sub := r.Intn(5)
+			if c11LateBudget.Add(-1) >= 0 {
+				sub = 5
+			}
+			switch sub {
+			case 5:
+				// a complete document, then white space up to a size where a reader could stop
+				// (64 KiB .. 8 MiB), then garbage: malformed whatever the length
+				n := gen.Pick(r, []int{1 << 16, 1 << 20, 4<<20 - len(raw), 4<<20 + 1, 8 << 20})
+				if n < 0 {
+					n = 4 << 20
+				}
+				b := append(append([]byte{}, raw...), bytes.Repeat([]byte(" "), n)...)
+				emit("late_trailing_garbage", append(b, '}', '{'))
 			case 0:
 				emit("bom", append([]byte{0xEF, 0xBB, 0xBF}, raw...))
 			case 1:
